@@ -419,5 +419,8 @@ SUBCHECKS = [
 ]
 
 
+# thorough tier: coverage-guided campaigns (atheris) on the same run_case, see pv/fuzz.py
+FUZZ = [("random-L0", 15000)]
+
 def subcheck(name):
     return {s.name: s for s in SUBCHECKS}[name]
